@@ -6,11 +6,11 @@ package main
 import (
 	"bytes"
 	"encoding/json"
+	"fmt"
 	"go/ast"
 	"go/format"
 	"go/parser"
 	"go/token"
-	"fmt"
 	"os"
 	"os/exec"
 	"path/filepath"
@@ -45,18 +45,18 @@ type RunSpec struct {
 }
 
 type Spec struct {
-	Property    string    `json:"property"`
-	Package     string    `json:"package"` // directory below /repo ("." for the root package)
-	PkgName     string    `json:"pkgname"`
-	Harness     []string  `json:"harness"` // paths below /verif
-	Runs        []RunSpec `json:"runs"`
-	Assumptions []string  `json:"assumptions"`
-	Outside     []string  `json:"outside_the_claim"`
-	Stubs       []string  `json:"stubs"`
-	DirectedMode string                `json:"directed_mode"` // "" (token scheduler: sync/sync.atomic only) or "chan" (channel-aware)
-	Directed    bool                   `json:"directed"` // schedule-dependent findings can be replayed with sync/sync.atomic instrumented
-	Cfg         map[string]interface{} `json:"cfg"` // defaults for every run of this spec/part
-	Parts       []Spec    `json:"parts"` // a property spanning several packages: one part per package
+	Property     string                 `json:"property"`
+	Package      string                 `json:"package"` // directory below /repo ("." for the root package)
+	PkgName      string                 `json:"pkgname"`
+	Harness      []string               `json:"harness"` // paths below /verif
+	Runs         []RunSpec              `json:"runs"`
+	Assumptions  []string               `json:"assumptions"`
+	Outside      []string               `json:"outside_the_claim"`
+	Stubs        []string               `json:"stubs"`
+	DirectedMode string                 `json:"directed_mode"` // "" (token scheduler: sync/sync.atomic only) or "chan" (channel-aware)
+	Directed     bool                   `json:"directed"`      // schedule-dependent findings can be replayed with sync/sync.atomic instrumented
+	Cfg          map[string]interface{} `json:"cfg"`           // defaults for every run of this spec/part
+	Parts        []Spec                 `json:"parts"`         // a property spanning several packages: one part per package
 }
 
 type KnownFinding struct {
@@ -369,7 +369,7 @@ func writeEvidence(prop, tier string, seed int64, spec *Spec, eng *Engine, resul
 		entries = append(entries, map[string]interface{}{
 			"entry": er.Entry, "bounds": er.Params, "paths": ex.paths, "outcomes": oc, "decisions": ex.decs,
 			"max_decisions_on_a_path": ex.maxDecs, "instructions_executed": ex.steps,
-			"queries": map[string]int64{"feasibility_by_order_procedure": ex.qOrder, "feasibility_and_concretisation": ex.qFeas, "vc_by_solver": ex.vcSol, "vc_by_rewriting": ex.vcRew, "vc_inherited_from_the_spawning_path": ex.vcInh},
+			"queries":        map[string]int64{"feasibility_by_order_procedure": ex.qOrder, "feasibility_and_concretisation": ex.qFeas, "vc_by_solver": ex.vcSol, "vc_by_rewriting": ex.vcRew, "vc_inherited_from_the_spawning_path": ex.vcInh},
 			"solver_queries": ex.solverQ, "solver_time_s": round2(ex.solverT.Seconds()), "wall_s": round2(er.WallS),
 			"covers": ex.covers, "cuts": ex.cuts, "missing_covers": er.Missing, "findings": fl,
 			"engine_bounds": map[string]interface{}{"unwind": er.Cfg.Unwind, "max_steps": er.Cfg.MaxSteps, "map_order": er.Cfg.MapOrder,
@@ -413,11 +413,11 @@ func writeEvidence(prop, tier string, seed int64, spec *Spec, eng *Engine, resul
 			"entries":                  entries,
 			"queries":                  map[string]int64{"feasibility_and_concretisation": qFeas, "vc_by_solver": vcSol, "vc_by_rewriting": vcRew},
 			"solver_queries":           solverQ, "solver_time_s": round2(solverT), "solver": solverName(results),
-			"load_and_ssa_build_s":     round2(eng.loadTime.Seconds()),
-			"outside_the_claim":        spec.Outside, "stubs": spec.Stubs,
+			"load_and_ssa_build_s": round2(eng.loadTime.Seconds()),
+			"outside_the_claim":    spec.Outside, "stubs": spec.Stubs,
 			"inconclusive": inconclusive, "known_findings_seen": knownHits,
 			"cross_solver_check": map[string]interface{}{"queries_replayed": crossN, "solvers": crossSolvers, "note": "the complete command stream of one worker (bounded) re-decided by every listed solver; verdict sequences must agree"},
-			"source": "encoding regenerated from /repo working tree on this run (go/packages + go/ssa, harness injected by overlay)",
+			"source":             "encoding regenerated from /repo working tree on this run (go/packages + go/ssa, harness injected by overlay)",
 		},
 		"assumptions": spec.Assumptions, "wall_s": round2(wall), "violations": violations,
 	}
